@@ -8,5 +8,5 @@ cd /verif/coq
 ids="$@"
 [ -z "$ids" ] && ids=$(ls theories/Properties/*.v | xargs -n1 basename | sed 's/\.v$//')
 mods=""
-for i in $ids; do mods="$mods GFS.$i"; done
+for i in $ids; do mods="$mods GFS.Properties.$i"; done
 timeout 7200 coqchk -silent -o -Q theories GFS $mods 2>&1 | tail -40
